@@ -50,6 +50,8 @@ pub struct StreamCfg {
     /// remove duplicate start vertices from entry lists (C03 attributes rows to start vertices)
     pub dedup_entries: bool,
     pub cfg_for_block: Box<dyn Fn(u64) -> GenCfg>,
+    /// work budget of the cost probe (adapter items); cases above it are skipped and counted
+    pub cost_budget: i64,
 }
 
 impl StreamCfg {
@@ -62,6 +64,7 @@ impl StreamCfg {
             block: 25,
             dedup_entries: false,
             cfg_for_block: Box::new(GenCfg::rotated),
+            cost_budget: 300_000,
         }
     }
 }
@@ -171,6 +174,10 @@ pub fn run_stream(
             report.evaluations += 1;
             match compile(&schema, &text) {
                 Compiled::Ok(compiled) => {
+                    if !crate::adapter::cost_probe(&model, &ds, &compiled, &args, scfg.cost_budget) {
+                        report.count("cases_skipped_over_cost_budget");
+                        continue;
+                    }
                     let sk = skeleton(&generated.query);
                     let ctx = CaseCtx {
                         index: produced,
